@@ -45,7 +45,8 @@ def _register_capabilities_hooks(converter: cattrs.Converter) -> cattrs.Converte
         if object_ is None:
             return None
         if isinstance(object_, (bool, int, str, float)):
-            return object_
+            # `TextDocumentSyncKind` is a closed enumeration, unknown values are invalid.
+            return converter.structure(object_, lsp_types.TextDocumentSyncKind)
         return converter.structure(object_, lsp_types.TextDocumentSyncOptions)
 
     def _notebook_document_sync_hook(
